@@ -105,6 +105,16 @@ def _install_patches():
         return ans
     mock.Repository.get_build_status = get_build_status
 
+    orig_url = mock.Repository.get_git_url
+
+    def get_git_url(self):
+        bare = orig_url(self)
+        w = CURRENT[0]
+        if w is not None and w.cred_url and w.in_berte:
+            return w.cred_url
+        return bare
+    mock.Repository.get_git_url = get_git_url
+
     wrap(mock.PullRequestController, 'add_comment', 'host')
     wrap(mock.PullRequestController, 'decline', 'host')
     wrap(mock.PullRequestController, 'set_bot_status', 'host')
@@ -229,7 +239,8 @@ class Snapshot:
 
 class World:
     def __init__(self, layout='d2', queue_mode='queue', seed=0, settings=None,
-                 cmd_line_options=(), credentials_url=False):
+                 cmd_line_options=(), credentials_url=False,
+                 password=PASSWORD):
         _install_patches()
         if CURRENT[0] is not None:
             CURRENT[0].close()
@@ -240,10 +251,13 @@ class World:
         self.seed = seed
         self.extra_settings = dict(settings or {})
         self.cmd_line_options = list(cmd_line_options)
+        self.password = password
+        self.cred_url = None
         self.history = []          # replayable list of actions
         self.records = []          # JobRecords
         self.clock = 0
         self.in_job = False
+        self.in_berte = False
         self.status_queries = []
         self.tip_history = {}      # branch -> [sha,...] every tip ever seen
         self.dir = env.mkscratch('vf-w-')
@@ -283,6 +297,15 @@ class World:
         self.bare = self.host_repo.git_url
         os.environ['VF_BARE'] = self.bare
         self._install_update_hook()
+        if credentials_url:
+            # the clone URL carries the robot's credentials, built the way
+            # the github / bitbucket clients build it; git maps it to the
+            # local bare repository (url.<path>.insteadOf), so real git works
+            from urllib.parse import quote
+            self.cred_url = 'https://%s:%s@githost.invalid/%s/%s.git' % (
+                quote(ROBOT), quote(password), OWNER, SLUG)
+            self.git('config', '--global', 'url.%s.insteadOf' % self.bare,
+                     self.cred_url, cwd=self.dir)
         self.repos = {u: self.clients[u].get_repository(slug=SLUG,
                                                         owner=OWNER)
                       for u in USERS}
@@ -295,6 +318,9 @@ class World:
     def close(self):
         if CURRENT[0] is self:
             CURRENT[0] = None
+        if tempfile.tempdir == self.tmp:
+            tempfile.tempdir = None
+            os.environ.pop('TMPDIR', None)
         try:
             self.berte.git_repo.delete()
         except Exception:
@@ -421,12 +447,16 @@ class World:
         with open(path, 'w') as f:
             yaml.safe_dump(json.loads(json.dumps(self.settings_dict())), f)
         settings = setup_settings(path)
-        settings['robot_password'] = PASSWORD
+        settings['robot_password'] = self.password
         settings['jira_token'] = 'jira-token'
         settings['backtrace'] = True          # as bert_e.server does
         settings['quiet'] = True
         settings['cmd_line_options'] = list(self.cmd_line_options)
-        return BertE(settings)
+        self.in_berte = True
+        try:
+            return BertE(settings)
+        finally:
+            self.in_berte = False
 
     # -- observation ----------------------------------------------------------
     def refs(self):
